@@ -57,7 +57,10 @@ func extractFontTrueType(c pdf.Cursor, obj pdf.Object) (*dict.TrueType, error) {
 	}
 	d.SubsetTag, d.PostScriptName = subset.Split(string(baseFont))
 
-	d.Name, _ = c.Name(fontDict["Name"])
+	d.Name, err = c.Name(fontDict["Name"])
+	if pdf.IsReadError(err) {
+		return nil, err
+	}
 
 	// StdInfo will be non-nil, if the PostScript name indicates one of the
 	// standard 14 fonts. In this case, we use the corresponding metrics as
@@ -113,7 +116,11 @@ func extractFontTrueType(c pdf.Cursor, obj pdf.Object) (*dict.TrueType, error) {
 	if fd != nil {
 		defaultWidth = fd.MissingWidth
 	}
-	if !getSimpleWidths(d.Width[:], c, fontDict, defaultWidth) && stdInfo != nil {
+	ok, err := getSimpleWidthsErr(d.Width[:], c, fontDict, defaultWidth)
+	if err != nil {
+		return nil, err
+	}
+	if !ok && stdInfo != nil {
 		for c := range 256 {
 			w, ok := stdInfo.Width[enc(byte(c))]
 			if !ok {
@@ -123,7 +130,10 @@ func extractFontTrueType(c pdf.Cursor, obj pdf.Object) (*dict.TrueType, error) {
 		}
 	}
 
-	d.ToUnicode, _ = pdf.Decode(c, fontDict["ToUnicode"], cmap.ExtractToUnicode)
+	d.ToUnicode, err = pdf.Decode(c, fontDict["ToUnicode"], cmap.ExtractToUnicode)
+	if pdf.IsReadError(err) {
+		return nil, err
+	}
 
 	repairTrueType(d, c.Getter())
 
